@@ -97,6 +97,7 @@ def generate(program, spec, qualname, recv_cls=None, case=None):
     ex.entry_old = (entry_heap, dict(env), 0)
     ex.entry_env = dict(env)
     ex.call_stack = []
+    ex.contract_stack = [c]
     # vacuity probe: the preconditions must be satisfiable (checked by the solver stage)
     ex.obligations_pre = list(st.pc)
     results = ex.exec_block(fi.body(), st)
@@ -118,7 +119,8 @@ def generate(program, spec, qualname, recv_cls=None, case=None):
         if c.returns is not None:
             rty = T(c.returns)
             rt = ex.coerce(res, rty, s, None, "result-type")
-            res = SV(rty.sort(), rt, rty)
+            keep = res.h if (rty.kind == "list" and rty.name == "Any" and res.k == "ref" and res.h is not None and res.h.kind == "list") else rty
+            res = SV(rty.sort(), rt, keep)
         # conditions under which the contract says an exception is raised must not return normally
         for (name, cond) in c.raises:
             if name.endswith("!"):
@@ -127,6 +129,10 @@ def generate(program, spec, qualname, recv_cls=None, case=None):
         for lab, text in c.ensures:
             g = calls.spec_eval(ex, s, env, text, old=ex.entry_old, result=res)
             ex.oblige(s, "ensures", lab, None, g)
+        for callee, n in c.expect_calls.items():
+            got = s.known.get("$calls", {}).get(callee, 0)
+            ex.oblige(s, "calls", f"{callee}-called-exactly-{n}-times", None, z3.BoolVal(got == n),
+                      meta=dict(got=got))
         if not star:
             frame_obligations(ex, s, entry_heap, mods, ovar, c)
     return ex, c
